@@ -119,6 +119,7 @@ def _run(prop, args, base_seed, t0):
     else:
         if n_runs is None and budget is None:
             budget = float(os.environ.get("VERIF_BUDGET_S", tbudget))
+    chunk = int(os.environ.get("NSLSIM_CHUNK", chunk))
     s = core.Search(mod, args.tier, base_seed, env, workers=args.workers)
     results = s.run(
         n_runs=n_runs,
@@ -127,6 +128,9 @@ def _run(prop, args, base_seed, t0):
         stop_on_violation=not args.keep_going,
         first_index=args.first,
     )
+    if os.environ.get("NSLSIM_DUMP_DIGESTS"):
+        with open(os.environ["NSLSIM_DUMP_DIGESTS"], "w") as f:
+            json.dump({str(r["i"]): [r.get("verdict"), r.get("oracle"), r.get("digest")] for r in results}, f)
     findings = core.load_known_findings()
     harness = [r for r in results if r.get("verdict") in ("harness-error", "timeout")]
     viols = [r for r in results if r.get("verdict") == "violation"]
